@@ -2,6 +2,7 @@
 From Coq Require Import List NArith ZArith Bool Lia.
 From Coq Require Import ZifyN ZifyBool.
 Import ListNotations.
+From STFS Require Spelling.
 From STFS Require Import Str Db Tape Index Ops Fs Diff Norm TapeLemmas
   C01Str C01Db C01Inv C01Sim C01Tape C01Hdr C01Ops C01Ops2 C01Reads C01Fs.
 Open Scope N_scope.
@@ -37,6 +38,7 @@ Proof.
   destruct a as [|a0 a']; [discriminate|]. destruct b as [|b0 b']; [discriminate|].
   set (old := path_clean (a0 :: a')) in *. set (new := path_clean (b0 :: b')) in *.
   rewrite (get_root_path_lv hr (db s) HL). rewrite set_db_same.
+  rewrite ?Spelling.spelling_root, ?(Spelling.spelling_good old Go), ?(Spelling.spelling_good new Gn), ?Spelling.orb_same.
   destruct (eqb_str [slash] old) eqn:Eo; [same_state|].
   assert (Hno : old <> [slash]) by (apply eqb_str_neq in Eo; congruence).
   assert (MV : forall s1, OKs s1 -> old <> new -> exists s' o, move_op c s1 old new = (s', o) /\ OKs s').
